@@ -305,7 +305,7 @@ fn lifecycle(p: &Profile) -> BoxedStrategy<Vec<Op>> {
     let mid = (0u8..11, small_plain.clone()).boxed();
     let term = prop_oneof![4 => Just(0u8), 3 => Just(1u8), 2 => Just(2u8), 1 => Just(3u8), 1 => Just(4u8), 2 => Just(5u8)];
     // (one in ten lifecycles starts behind a backlog of plain operations that is just longer than a plausible batch size)
-    let backlog = prop_oneof![27 => Just(0usize), 1 => 33usize..=36, 1 => 65usize..=68, 1 => 130usize..=133];
+    let backlog = prop_oneof![2700 => Just(0usize), 100 => 33usize..=36, 100 => 65usize..=68, 100 => 130usize..=133, 1 => 4098usize..=4100];
     ((u8s, u8s, u8s), kind, (small_fut.clone(), small_fut, small_plain), vec(mid, 0..=4), term, backlog)
         .prop_map(|((o, slot, g), kind, (pre, post, plain), mids, term, backlog)| {
             let mut out = vec![];
